@@ -481,7 +481,7 @@ func c13RunChain(seed int64, idx int, nblocks int) c13Chain {
 				blk.Txs = append(blk.Txs, "undelegate "+a)
 			case 5, 6:
 				v := w.Vals[r.Intn(len(w.Vals))]
-				a := []string{"1", "3", "100", "100000000"}[r.Intn(4)]
+				a := []string{"1", "3", "100", "100000000", "-2"}[r.Intn(5)] // withdrawTx.Validate does not reject a negative amount
 				in.Txs = append(in.Txs, txWithdrawReward(v, oltAmt(a), memo()))
 				blk.Txs = append(blk.Txs, "withdraw-reward "+a)
 			}
@@ -576,6 +576,31 @@ func c13RunChain(seed int64, idx int, nblocks int) c13Chain {
 		ch.Blocks = append(ch.Blocks, blk)
 	}
 	return ch
+}
+
+// probe (question from the C02 slice): what does a WITHDRAW_REWARD transaction with a negative amount do?
+func c13ProbeNegWithdraw() {
+	w := NewWorld(1, 2, 0)
+	g := w.Genesis()
+	g.Customize = func(st *consensus.AppState) { st.Governance.RewardOptions.RewardInterval = 1 }
+	rep := NewReplica(g, ReplicaOpts{NodeVal: w.Vals[0].Val})
+	defer rep.Close()
+	rep.InitChain()
+	v := w.Vals[0]
+	show := func(tag string) {
+		d := rep.Dump()
+		say("%-28s matured balance=%s withdrawn=%s rewardpool=%s signer=%s\n", tag, c13Amt(d, "rwcum_balance_"+v.Val.Addr.String()),
+			c13Amt(d, "rwcum_withdrawn_"+v.Val.Addr.String()), c13Amt(d, "b_"+c13RewardPool.String()+"_OLT"), c13Amt(d, "b_"+v.Stake.Addr.String()+"_OLT"))
+	}
+	for i := 0; i < 6; i++ {
+		rep.RunBlock(&BlockIn{})
+	}
+	show("after 6 blocks")
+	for _, a := range []string{"-2", "1", "-9223372036854775807"} {
+		res := rep.RunBlock(&BlockIn{Txs: [][]byte{txWithdrawReward(v, oltAmt(a), "probe"+a)}})
+		say("WITHDRAW_REWARD %s OLT: code=%d log=%.120s\n", a, res.Txs[0].Code, res.Txs[0].Log)
+		show("  state after")
+	}
 }
 
 // ---------- package-level calculator runs ----------
@@ -837,7 +862,12 @@ func c13Main(args []string) int {
 	tag := fs.String("tag", "0", "suffix of the output files")
 	fs.BoolVar(&c13Honest, "honest", false, "whole-app chains with the devnet reward options and ordinary block times")
 	replayP := fs.String("replay-pcases", "", "JSON file with a list of calculator runs (inputs) to execute first")
+	probe := fs.Bool("probe-negwd", false, "probe: WITHDRAW_REWARD with a negative amount on the real app")
 	fs.Parse(args)
+	if *probe {
+		c13ProbeNegWithdraw()
+		return 0
+	}
 
 	rep := c13Report{Hist: map[string]int{}}
 	chains := []c13Chain{}
